@@ -8,13 +8,13 @@ CLAIMED = {
                 note="declared continuous variables are sampled on a grid; TLC, Json module and serde marshalling are trusted"),
     "C02": dict(level="model_checking", ref="4/C02", technique="TLA+ trace validation (LinTrace: exact optimisation over auxiliaries by enumeration + Fourier-Motzkin) on TLC-enumerated model families",
                 text="Same corpus as C01; for every source-feasible sample the exact optimum of the linear objective over all auxiliary extensions must equal the source objective evaluated by the specification's Eval.",
-                note="same trusted base as C01"),
+                note="same trusted base as C01; family J puts the three-operand min / max blocks of family I into the objective"),
     "C07": dict(level="model_checking", ref="4/C07", technique="TLA+ trace validation of the real bounds analyzer (hook H1, BoundsTrace) and of published ranges of compiled models (LinTrace) on TLC-generated row sequences",
                 text="TLC generates ordered row sequences (BoundsGen) x step limits; the real analyzer's box, published domain and sub-expression intervals are validated against the specification's exact evaluation on a sample grid; published ranges of compiled models are validated on corpus K.",
                 note="variable boxes and published ranges are moved inward onto the 1/1024 grid exactly (membership of a grid sample is decided without tolerance); sub-expression intervals are rounded outward; continuous variables sampled on a grid; hook H1 trusted to call the same functions as the linearizer"),
     "C08": dict(level="model_checking", ref="4/C08", technique="TLA+ trace validation (LinTrace!IllFormed / BadErr) of real Linearizer outputs and errors on TLC-enumerated model families incl. naming corner cases",
                 text="Structural predicate over every compile outcome of corpus K plus family E (duplicate names, $-named user variables, infinite constants, empty aggregations, unbounded operands); guessed constants are excluded semantically by C01 far-point samples.",
-                note="name order is passed as byte-order ranks computed by the harness; finiteness is read from f64::is_finite by the harness"),
+                note="name order is passed as byte-order ranks computed by the harness; finiteness is read from f64::is_finite by the harness; the names of compiled rows are judged by NameTrace.tla on every program of NameGen.tla (constraints compiling to none / one / two rows under colliding names; rows are mapped to constraints by position); a model with $-named user variables is also compiled with them renamed (same number of variables)"),
     "C13": dict(level="model_checking", ref="4/C13", technique="TLA+ trace validation (StdFormTrace: two-way point correspondence on a grid of image columns) of real into_standard_form outputs (hook H2) on TLC-enumerated LPs",
                 text="TLC enumerates small continuous LPs (LpGen); for each, the real standard form is validated: shape, and for every grid assignment of the image columns feasibility in the standard form is equivalent to feasibility of the mapped-back original point with equal objective after flip and offset.",
                 note="grid points only; hook H2 accessors trusted"),
@@ -29,7 +29,7 @@ CLAIMED = {
                 note="optimal values compared at 1e-6 relative after snapping; integer ranges are the small declared ones; the hand-written corpus has degenerate equality systems, rows scaled by 2^-17, contradictions of 2^-18, a bound of 1e7, variables named like the columns of the standard form; two Clarabel models are open known findings (identified by the model)"),
     "C17": dict(level="model_checking", ref="4/C17", technique="TLA+ token-driven reader machine (LpReader.tla) as trace specification of to_lp_format on TLC-generated linear models",
                 text="LpReader.tla is an independent CPLEX-LP reader written as a state machine that consumes one token per step; for every exported text TLC runs it over the real token stream and compares the model read (sense, objective and constant, rows, relations, right-hand sides, names, bounds, binary/general sets) with the model exported.",
-                note="white-space tokenisation and float parsing of numeric tokens happen in the harness; numbers are compared by sign and bit pattern"),
+                note="white-space tokenisation and float parsing of numeric tokens happen in the harness; numbers are compared by sign and bit pattern; variables called like words of the LP format are an open known finding (KNOWN-KEYWORD-NAME)"),
     "C20": dict(level="model_checking", ref="4/C20", technique="TLA+ trace validation (SolveTrace!DualProblems: exact re-solving of right-hand-side perturbations by Fourier-Motzkin) of Clarabel's reported shadow prices on TLC-generated named-row LPs",
                 text="For every named row whose exact optimum is differentiable in its right-hand side (equal secant slopes over +-1/8, decided by the FM oracle) the reported dual must equal that slope in the user's objective sense; duals only for named rows, exactly one each.",
                 note="duals snapped to small rationals within 1e-6; rows with non-unique sensitivities are outside the property and not judged; both doors are exercised (LinearModel, and source text through front end and linearizer); two classes of the text door are known findings"),
